@@ -325,7 +325,9 @@ class HierDictDocument(DictDocument):
 
         try:
             return self.from_serstr(cls, inst, *args)
-        except TypeError as e:
+        except (TypeError, UnicodeDecodeError) as e:
+            # UnicodeDecodeError: the from_bytes handlers (MessagePackDocument
+            # with raw=True, use_bin_type=False) decode bytes before parsing.
             raise ValidationError(inst, "%%r: %s" % str(e).replace("%", "%%"))
 
     def _doc_to_object(self, ctx, cls, doc, validator=None):
